@@ -1057,7 +1057,9 @@ impl<T: Parser> Parser for Reference<T> {
             Err(nom::Err::Error(mut err)) => {
                 // recover backup
                 err.input.reference_pos = reference_backup;
-                err.input.inc_references.pop();
+                if some_this {
+                    err.input.inc_references.pop();
+                }
                 Err(nom::Err::Error(err))
             }
             Err(_) => panic!("Incomplete data"),
